@@ -211,7 +211,7 @@ func canonJSON(x interface{}) string {
 // object's own Transform, then the schema's case transforms.
 func (c Config) applyTransforms(x *Rec) *Rec {
 	y := cloneRec(x)
-	y.Tr = strings.TrimSpace(y.Tr)
+	recHook(y)
 	for p, k := range c.Fields {
 		if k.Upper {
 			setLeafString(y, p, strings.ToUpper)
